@@ -14,6 +14,7 @@ run_one() {
   nv=$(echo "$out" | grep -c '^VIOLATION')
   kinds=$(echo "$out" | grep '^VIOLATION' | sed -n 's/.*replay=\([^ ]*\).*/\1/p' | while read f; do jq -r '(.violation.kind // empty), (if .no_failing_input_found then "BROKEN-TIE:" + ((.no_longer_checks // []) | map(.[0:60]) | join(" | ")) else empty end)' "$f" 2>/dev/null; done | sort | uniq -c | sort -rn | awk '{c=$1; $1=""; printf "%s×%s; ", substr($0,2), c}')
   echo -e "$id\t$prop\t$rc\t$nv\t$kinds"
+  echo -e "$id\t$prop\t$rc\t$nv\t$kinds" >> "${SEED_OUT:-seeded/RESULTS.tsv}.partial"
   git -C /repo worktree remove --force "$wt" >/dev/null 2>&1; rm -rf "$wt" "$rp"
 }
 export -f run_one
